@@ -138,7 +138,12 @@ func (ex *Exec) chanRecv(fr *frame, x *ssa.UnOp, ch Val, st *State, reach *strin
 	} else {
 		v = ex.freshVal(et, st, "recv")
 	}
-	ex.advanceClock(st, *reach)
+	n := ex.advanceClock(st, *reach)
+	if ex.pure == 0 {
+		// a receive from a time.After channel completes no earlier than its firing time
+		ex.registerKey("X|timer", arrSort(sInt, sInt))
+		ex.assume(app("<=", sel(ex.heapGet(st, "X|timer", arrSort(sInt, sInt)), ch.L[0]), n))
+	}
 	return v
 }
 
